@@ -789,7 +789,12 @@ func (self *pnSlice) Swap(i, j int) {
 }
 
 func (self pnSlice) Less(i, j int) bool {
-	return int(uintptr(self.a[i].Node.v)) < int(uintptr(self.a[j].Node.v))
+	vi, vj := uintptr(self.a[i].Node.v), uintptr(self.a[j].Node.v)
+	if vi != vj {
+		return vi < vj
+	}
+	// an insertion point (empty original value) goes before the existing value starting at the same address
+	return self.a[i].Node.l < self.a[j].Node.l
 }
 
 func (self *pnSlice) Sort() {
